@@ -3,7 +3,7 @@
    definitions at Qops on states captured from the implementation. *)
 From Coq Require Import Reals List Arith Lia Lra.
 From TLV Require Import Base.Shape Base.PyList Base.Tensor Base.Ops Base.RSum Model.Descent
-  Proofs.DescentProofs Proofs.DescentProofsHals.
+  Proofs.DescentProofs Proofs.DescentProofsHals Proofs.DescentProofsLink Proofs.DescentProofsOrth.
 Import ListNotations.
 Open Scope R_scope.
 
@@ -112,6 +112,56 @@ Theorem C07_ls_block_minimises : forall (A Y X Z : list (list R)) (lam : R) (m n
 Proof. exact ls_block_minimises. Qed.
 Print Assumptions C07_ls_block_minimises.
 
+(* (ii'') HALS non-negative CP (non_negative_parafac_hals): the block objective IS the HALS objective.  For every order, rank,
+   weights and factor A of mode k:  ||X - [[w; ..A..]]||^2 / 2 + l1 sum(A) + l2 ||A||^2
+   = ||X||^2 / 2 + hals_obj(G, B, A') with G = w (.) Hadamard of Grams (.) w and B = MTTKRP' (what the code passes to hals_nnls) *)
+Theorem C07_cp_pen_obj_is_hals : forall (X : tensor R) (w : list R) (facs : list (list (list R))) (k rank : nat) (l1 l2 : R),
+  (k < length (shape X))%nat -> (k < length facs)%nat ->
+  forall A : list (list R),
+  cp_pen_obj Rops X w (set_nth k A facs) k l1 l2 rank
+  = rsum (prod (shape X)) (fun o => (nth o (data X) 0)^2) / 2
+    + hals_obj Rops (cp_G_mat Rops (shape X) w facs k 0 rank) (cp_hals_B Rops X w facs k rank)
+               (mat_T Rops (nth k (shape X) 0%nat) rank A) l1 l2 rank (nth k (shape X) 0%nat).
+Proof. exact cp_pen_obj_is_hals. Qed.
+Print Assumptions C07_cp_pen_obj_is_hals.
+
+(* hence ANY number n of HALS passes on mode k, started from the current factor (entries >= epsilon), never increases
+   ||X - [[w; A..]]||^2 / 2 + l1 sum(A_k) + l2 ||A_k||^2 : no hypothesis on the other factors or the weights
+   (symmetry and non-negative diagonal of the system are proved, zero diagonal entries are skipped by the pass) *)
+Theorem C07_cp_hals_block_descent : forall (X : tensor R) (w : list R) (facs : list (list (list R))) (k rank : nat) (l1 l2 eps : R) (n : nat),
+  (k < length (shape X))%nat -> (k < length facs)%nat -> 0 <= l2 ->
+  (forall i r : nat, (i < nth k (shape X) 0)%nat -> (r < rank)%nat -> eps <= mget Rops (nth k facs []) i r) ->
+  cp_pen_obj Rops X w (cp_hals_block Rops X w rank l1 l2 eps n facs k) k l1 l2 rank <= cp_pen_obj Rops X w facs k l1 l2 rank.
+Proof. intros X w facs k rank l1 l2 eps n Hk Hf. exact (cp_hals_block_descent X w facs k rank l1 l2 Hk Hf eps n). Qed.
+Print Assumptions C07_cp_hals_block_descent.
+
+(* HOOI (partial_tucker) and PARAFAC2 (_compute_projections): proved is the algebra for matrices with orthonormal columns;
+   the optimality of the SVD answer is a NAMED HYPOTHESIS (Ky Fan's maximum principle / orthogonal Procrustes), hence _partial.
+   Not formalised: the multi-mode identity ||X - core x U_j||^2 = ||X||^2 - ||core||^2 that ties Y to the Tucker objective. *)
+Theorem C07_hooi_residual : forall (m r p : nat) (U Y : fmat), orthonormal m r U ->
+  frob2 m p (msub Y (mmul r U (mmul m (mT U) Y))) = frob2 m p Y - frob2 r p (mmul m (mT U) Y).
+Proof. exact hooi_residual. Qed.
+Print Assumptions C07_hooi_residual.
+
+Theorem C07_hooi_block_descent_partial : forall (m r p : nat) (Uold Unew Y : fmat),
+  orthonormal m r Uold -> orthonormal m r Unew ->
+  (forall W : fmat, orthonormal m r W -> frob2 r p (mmul m (mT W) Y) <= frob2 r p (mmul m (mT Unew) Y)) ->
+  frob2 m p (msub Y (mmul r Unew (mmul m (mT Unew) Y))) <= frob2 m p (msub Y (mmul r Uold (mmul m (mT Uold) Y))).
+Proof. exact hooi_block_descent_partial. Qed.
+Print Assumptions C07_hooi_block_descent_partial.
+
+Theorem C07_parafac2_residual : forall (J R' K : nat) (P X M : fmat), orthonormal J R' P ->
+  frob2 J K (msub X (mmul R' P M)) = frob2 J K X - 2 * minner J R' P (mmul K X (mT M)) + frob2 R' K M.
+Proof. exact parafac2_residual. Qed.
+Print Assumptions C07_parafac2_residual.
+
+Theorem C07_parafac2_projection_descent_partial : forall (J R' K : nat) (Pold Pnew X M : fmat),
+  orthonormal J R' Pold -> orthonormal J R' Pnew ->
+  (forall W : fmat, orthonormal J R' W -> minner J R' W (mmul K X (mT M)) <= minner J R' Pnew (mmul K X (mT M))) ->
+  frob2 J K (msub X (mmul R' Pnew M)) <= frob2 J K (msub X (mmul R' Pold M)).
+Proof. exact parafac2_projection_descent_partial. Qed.
+Print Assumptions C07_parafac2_projection_descent_partial.
+
 (* ---------- non-vacuity: the hypotheses of the theorems above are satisfiable (and the descent can be strict) ---------- *)
 Example C07_cp_nonvacuous :
   let X := mk [2;2]%nat [1;2;3;4] in let w := [1] in let facs := [[[1];[1]]; [[1];[2]]] in
@@ -155,3 +205,27 @@ Example C07_ls_nonvacuous :
   forall j c : nat, (j < 1)%nat -> (c < 1)%nat ->
   ls_normal_lhs Rops [[1];[1]] [[1];[3]] [[2]] 2 1 j c = 0 * mget Rops [[2]] j c.
 Proof. intros j c Hj Hc. assert (j = 0%nat) by lia. assert (c = 0%nat) by lia. subst. vm_compute. ring. Qed.
+
+Example C07_cp_hals_nonvacuous :
+  let X := mk [2;2]%nat [1;2;3;4] in let facs := [[[1];[1]]; [[1];[2]]] in
+  (0 < length (shape X))%nat /\ (0 < length facs)%nat /\
+  (forall i r : nat, (i < nth 0 (shape X) 0)%nat -> (r < 1)%nat -> 0 <= mget Rops (nth 0 facs []) i r).
+Proof.
+  cbv zeta. split; [simpl; lia|]. split; [simpl; lia|].
+  intros i r Hi Hr. simpl in Hi. assert (r = 0%nat) by lia; subst r. destruct i as [|[|i]]; [| |lia]; vm_compute; lra.
+Qed.
+
+(* orthonormal columns / Ky Fan / Procrustes hypotheses are satisfiable: U = first unit vector of R^2, Y = X = (1, 0)' *)
+Definition e1 : fmat := fun i j => match i, j with O, O => 1 | _, _ => 0 end.
+Example C07_orth_nonvacuous :
+  orthonormal 2 1 e1 /\
+  (forall W : fmat, orthonormal 2 1 W -> frob2 1 1 (mmul 2 (mT W) e1) <= frob2 1 1 (mmul 2 (mT e1) e1)) /\
+  (forall W : fmat, orthonormal 2 1 W -> minner 2 1 W (mmul 1 e1 (mT e1)) <= minner 2 1 e1 (mmul 1 e1 (mT e1))).
+Proof.
+  split; [|split].
+  - intros a b Ha Hb. assert (a = 0%nat) by lia. assert (b = 0%nat) by lia. subst. vm_compute. ring.
+  - intros W HW. specialize (HW 0%nat 0%nat ltac:(lia) ltac:(lia)). unfold delta in HW. simpl in HW.
+    unfold frob2, mmul, mT, e1. simpl. nra.
+  - intros W HW. specialize (HW 0%nat 0%nat ltac:(lia) ltac:(lia)). unfold delta in HW. simpl in HW.
+    unfold minner, mmul, mT, e1. simpl. nra.
+Qed.
